@@ -1,5 +1,6 @@
 """C14 -- parameter operators compute their documented tensor operation (structural clauses)."""
 from ..rules import r5 as r5h_mod
+from ..rules import r14 as r14u_mod
 from ..core import Ctx, Ob, PropSpec
 from ..rules import r5 as r5_, r1, r3, r4, r5, r4r, r12b, r11
 
@@ -27,6 +28,7 @@ def run(ctx: Ctx) -> list[Ob]:
     obs += r11.r11l(ctx)
     obs += r3.r3g(ctx) + r3.r3l(ctx) + r3.r3m(ctx)
     obs += r5h_mod.r5h(ctx)
+    obs += r14u_mod.merged_node_lists_unique(ctx)
     return obs
 
 
@@ -51,8 +53,9 @@ SPEC = PropSpec(
         ' R11l: no log-likelihood multiplies an input-derived factor (a count x, n - x) by the unclamped logarithm of a parameter-derived probability: at the in-support point where the factor is 0 and the probability has rounded to 0 / 1 (a saturated sigmoid) that is 0 * -inf = nan; torch.xlogy / xlog1py or a clamp (as torch.distributions does) is required.'
         " R3g / R3l / R3m (the address book of a folded parameter graph is built by the same functions as the layers'): an index-free or slice form replaces a gather only under an element-by-element comparison of the cumulative index with a range bounded by the sources' fold counts (a test of fixed positions -- endpoints and length -- is satisfied by permuted and repeating indices); offsets are exclusive prefix sums of num_folds; fold indices are never re-ordered."
         ' R5h: the two axis idioms put axis 0 on the right side -- in `d if d >= 0 else d + len(shape)` (normalisation) axis 0 stays, in `a if a < 0 else a + 1` (shift past the fold dimension) every non-negative axis, 0 included, moves by one; the branch taken at 0 is derived from the comparison operator of each such conditional expression.'
+        ' R14u: the constructors that merge the node lists of several operand graphs (Parameter.from_nary / TorchParameter.from_nary) de-duplicate the concatenation in order: operands sharing a sub-graph (log(q) + q) or the same operand twice (q * q) would otherwise list the shared nodes twice and the composite graph could not be ordered, compiled or evaluated.'
     ),
     not_decided="the mathematical content of each operator (numerical).",
     run=run,
-    floors={"R5h": 8, "R3g": 2, "R3l": 2, "R3m": 8, "R3j": 40, "R12c": 8, "R3i": 4, "R5d": 2, "R4g": 3, "R5c": 2, "R4l": 60, "R4p": 80, "R1a": 28, "R1b": 28, "R1c": 100, "R3a": 60, "R3f": 60, "R5a": 9, "R5b": 12, "R4a": 100},
+    floors={"R14u": 2, "R5h": 8, "R3g": 2, "R3l": 2, "R3m": 8, "R3j": 40, "R12c": 8, "R3i": 4, "R5d": 2, "R4g": 3, "R5c": 2, "R4l": 60, "R4p": 80, "R1a": 28, "R1b": 28, "R1c": 100, "R3a": 60, "R3f": 60, "R5a": 9, "R5b": 12, "R4a": 100},
 )
